@@ -58,6 +58,9 @@ def run(ctx):
         ctx.guard(hide, ctx, cfg, fs)
         ctx.guard(group_push, ctx, cfg, fs)
         ctx.guard(prefix_table, ctx, cfg, fs)
+        import c10, c08
+        # "never a help screen": fallback_to_usage answers only a line that was empty BEFORE parsing (shared with C10)
+        ctx.guard(c08.keep_only, ctx, lambda: c10.usage_fallback(ctx, cfg, ctx.look(fs.one(r'^info::OptionParser::<T>::run_subparser$')), 'P.precedence'), lambda o: True, 'P.precedence')
         ctx.guard(comp_rebuild, ctx, cfg, fs)
         ctx.guard(pos_only_source, ctx, cfg, fs)
         ctx.guard(value_mode_scoped, ctx, cfg, fs)
